@@ -459,3 +459,72 @@ def h2_ws_idle(kind: int, ti: int, flavour: int, pc: int) -> bool:
     elif not obs["handler_done"]:
         why = "transport closed but the handler is still running"
     return done(why == "", kind=["h2 no stream", "h2 one slow stream", "websocket", "cleartext prior-knowledge h2, no stream"][kind], T=T, gap=gap, flavour=flavour, why=why)
+
+
+# ------------------------------------------------------------------ server-side close with a pipelined request parked
+
+CLOSERS = ["keep_alive_max_requests reached", "application announces Connection: close", "worker is terminating"]
+
+
+@harness(
+    "C07",
+    dom={"cause": (0, 2), "flavour": (0, 1), "n": (2, 3)},
+    witnesses=[{"cause": 0, "flavour": 0, "n": 2}, {"cause": 1, "flavour": 1, "n": 3}],
+    budget=120,
+    per_path=120,
+    bounds="2..3 pipelined HTTP/1.1 requests in one read where the first response ends the connection (request maximum reached, application sends Connection: close, worker terminating) x both workers: the handler must finish and the transport close as soon as the first application has returned",
+    encodes=["hypercorn/protocol/h11.py::H11Protocol._maybe_recycle", "hypercorn/protocol/h11.py::H11Protocol._handle_events", "hypercorn/asyncio/tcp_server.py::TCPServer.run", "hypercorn/trio/tcp_server.py::TCPServer.run"],
+    stubs=["tier C runtime"],
+)
+def h1_close_with_parked_request(cause: int, flavour: int, n: int) -> bool:
+    """
+    pre: DOM(h1_close_with_parked_request, cause=cause, flavour=flavour, n=n)
+    post: _
+    """
+    enter()
+    cause = conc(cause, 0, 2)
+    n = conc(n, 2, 3)
+    flavour = "asyncio" if conc(flavour, 0, 1) == 0 else "trio"
+
+    def factory(env):
+        log = []
+
+        async def app(scope, receive, send, sync_spawn=None, call_soon=None):
+            log.append(("start", scope["raw_path"], env.now()))
+            while True:
+                m = await receive()
+                if m["type"] != "http.request" or not m.get("more_body"):
+                    break
+            await env.sleep(1.0)
+            headers = [(b"content-length", b"2")]
+            if cause == 1:
+                headers.append((b"connection", b"close"))
+            await send({"type": "http.response.start", "status": 200, "headers": headers})
+            await send({"type": "http.response.body", "body": b"ok", "more_body": False})
+            log.append(("done", scope["raw_path"], env.now()))
+
+        factory.log = log
+        return app
+
+    data = b"".join(h1_request("GET", b"/r%d" % i, [HOSTH]) for i in range(n))
+    acts = [("feed", data), ("sleep", 0.5)]
+    if cause == 2:
+        acts.append(("terminate",))
+    acts.append(("sleep", 20.0))
+    cfg = make_config(keep_alive_timeout=5.0, keep_alive_max_requests=1 if cause == 0 else 1000)
+    obs = run_session(flavour, factory, cfg, acts)
+    started = [e for e in factory.log if e[0] == "start"]
+    why = ""
+    if obs["handler_error"] is not None:
+        why = "connection handler raised %r" % (obs["handler_error"],)
+    elif len(started) != 1:
+        why = f"{len(started)} requests were started; the first response ends the connection"
+    elif obs["closed_at"] is None or obs["closed_at"] > 1.0 + 0.1:
+        why = f"transport closed at t={obs['closed_at']}; the only application returned at t=1.0"
+    elif not obs["handler_done"] or obs.get("handler_done_at") is None or obs["handler_done_at"] > 1.0 + 0.1:
+        why = f"connection handler still running (done_at={obs.get('handler_done_at')}) after the server closed the connection at t={obs['closed_at']}"
+    else:
+        resps, err, _, _ = h1_parse(all_out(obs), [("GET", b"/r0")])
+        if err or not resps or not resps[0].complete or resps[0].status != 200:
+            why = f"first response not delivered: {resps!r} {err}"
+    return done(why == "", cause=CLOSERS[cause], flavour=flavour, n=n, why=why)
